@@ -61,6 +61,12 @@ pub struct VictimPlan {
     /// (no ticker / beat chain / resets visible; shutdowns are requested from inside that task on command messages)
     #[serde(default)]
     pub async_fn: bool,
+    /// the victim installs a processing element (Module::stack) that logs every event the module's stack sees
+    #[serde(default)]
+    pub plugin: bool,
+    /// Module::reset spawns a task that sleeps this long and then logs (0 = no such task)
+    #[serde(default)]
+    pub reset_task_ns: u64,
 }
 
 #[derive(Debug, Clone, Serialize, Deserialize, PartialEq)]
@@ -87,6 +93,11 @@ pub enum Kind {
     Hello(u32),
     /// p1: the message the victim sends in the very event in which it requests shutdown `j` (sent while still up)
     Bye(usize),
+    /// victim: its processing stack saw the start of an event (free entry: only its position relative to the down
+    /// intervals is checked)
+    PluginEvent,
+    /// victim: the task spawned in Module::reset got past its sleep (free entry as well)
+    ResetTask,
 }
 
 #[derive(Debug, Clone, Copy, PartialEq, Eq, Serialize, Deserialize)]
@@ -102,6 +113,9 @@ pub struct Entry {
 
 thread_local! {
     static LOG: RefCell<Vec<Entry>> = const { RefCell::new(Vec::new()) };
+    /// set by the root's at_sim_end (the first module to be finished): at_sim_end is called for every module, shut
+    /// down or not, and passes through the processing stack; that is not an event of the module
+    static SIM_ENDING: std::cell::Cell<bool> = const { std::cell::Cell::new(false) };
 }
 
 fn now_ns() -> u64 {
@@ -131,10 +145,38 @@ struct Victim {
     inc: u32,
 }
 
+struct Watch {
+    k: usize,
+}
+impl des::net::processing::ProcessingElement for Watch {
+    fn event_start(&mut self) {
+        if !SIM_ENDING.with(std::cell::Cell::get) {
+            log(2 + self.k, self.k, 0, Kind::PluginEvent);
+        }
+    }
+}
+
 impl Module for Victim {
+    fn stack(&self, mut stack: des::net::processing::ProcessingStack) -> des::net::processing::ProcessingStack {
+        if self.plan.plugin {
+            stack.append(Watch { k: self.k });
+        }
+        stack
+    }
+
     fn reset(&mut self) {
         log(2 + self.k, self.k, self.inc, Kind::Reset);
         self.inc += 1;
+        if self.plan.reset_task_ns > 0 {
+            let (k, inc, d) = (self.k, self.inc, self.plan.reset_task_ns);
+            tokio::spawn(async move {
+                sleep(Duration::from_nanos(d)).await;
+                // (at_sim_end of a module that stays down drives its runtime once more: not an event of the module)
+                if !SIM_ENDING.with(std::cell::Cell::get) {
+                    log(2 + k, k, inc, Kind::ResetTask);
+                }
+            });
+        }
     }
 
     fn num_sim_start_stages(&self) -> usize {
@@ -215,6 +257,11 @@ struct Root {
 }
 
 impl Module for Root {
+    fn at_sim_end(&mut self) -> Result<(), RuntimeError> {
+        SIM_ENDING.with(|s| s.set(true));
+        Ok(())
+    }
+
     fn at_sim_start(&mut self, _: usize) {
         for (i, (t, _, _, _)) in self.plan.iter().enumerate() {
             schedule_at(Message::default().kind(K_PLAN).id(i as u16), st(*t));
@@ -276,6 +323,7 @@ pub struct Observed {
 
 pub fn execute(case: &Case) -> Observed {
     LOG.with(|l| l.borrow_mut().clear());
+    SIM_ENDING.with(|s| s.set(false));
     let res = vcommon::catch(|| {
         let mut plan: Vec<PlanItem> = Vec::new();
         for (v, vp) in case.victims.iter().enumerate() {
@@ -548,7 +596,7 @@ pub fn check(case: &Case, o: &Observed) -> Vec<Finding> {
         *opt.entry(key(e.module, e.about, e.kind, e.t)).or_insert(0) += 1;
     }
     let mut seen: BTreeMap<(usize, usize, Kind, u64), usize> = BTreeMap::new();
-    for e in &o.log {
+    for e in o.log.iter().filter(|e| !matches!(e.kind, Kind::PluginEvent | Kind::ResetTask)) {
         // the last probe may lie beyond the horizon bookkeeping of the reference
         *seen.entry(key(e.module, e.about, e.kind, e.t)).or_insert(0) += 1;
     }
@@ -557,6 +605,22 @@ pub fn check(case: &Case, o: &Observed) -> Vec<Finding> {
         1 => "p1".to_string(),
         k => format!("p0.v{}", k - 2),
     };
+    // free entries: nothing of the victim may show strictly inside a down interval
+    for e in o.log.iter().filter(|e| matches!(e.kind, Kind::PluginEvent | Kind::ResetTask)) {
+        let inside = r.downs[e.about].iter().any(|(at, rt)| e.t > *at && rt.map_or(true, |x| e.t < x));
+        if inside {
+            let what = if e.kind == Kind::PluginEvent {
+                "its processing stack ran an event"
+            } else {
+                "a task it spawned in Module::reset ran"
+            };
+            f.push((
+                if e.kind == Kind::PluginEvent { "stack-ran-while-down" } else { "task-ran-while-down-or-twice" },
+                format!("{} was shut down but {what} at {} ns; down intervals (request, restart): {:?}", name(e.module), e.t, r.downs[e.about]),
+            ));
+            return f;
+        }
+    }
     for (k, n) in &seen {
         let allowed = mand.get(k).map_or(0, |x| x.0) + opt.get(k).copied().unwrap_or(0);
         if *n > allowed {
@@ -575,6 +639,7 @@ pub fn check(case: &Case, o: &Observed) -> Vec<Finding> {
                 Kind::Start(_) => "unexpected-start",
                 Kind::Reset => "unexpected-reset",
                 Kind::Probe(_) => "active-flag",
+                Kind::PluginEvent | Kind::ResetTask => unreachable!(),
             };
             f.push((label, detail));
             if f.len() >= 3 {
@@ -628,7 +693,7 @@ pub fn check(case: &Case, o: &Observed) -> Vec<Finding> {
         let m = 2 + v;
         let mut down_since: Option<usize> = None;
         let mut next_stage = 0usize;
-        for (i, e) in o.log.iter().enumerate().filter(|(_, e)| e.module == m) {
+        for (i, e) in o.log.iter().enumerate().filter(|(_, e)| e.module == m && !matches!(e.kind, Kind::PluginEvent | Kind::ResetTask)) {
             match e.kind {
                 Kind::Reset => {
                     down_since = Some(i);
@@ -751,6 +816,8 @@ pub fn gen_case(rng: &mut Rng, coincide: bool) -> Case {
             transit_latency_b: tb,
             local_tasks: rng.chance(1, 3),
             async_fn,
+            plugin: !async_fn && rng.chance(1, 3),
+            reset_task_ns: if !async_fn && rng.chance(1, 4) { *rng.pick(&[MS, 10 * MS + 6 * MS, 100 * MS + 6 * MS]) } else { 0 },
         });
     }
     // two victims sharing the same shutdown / restart instants
@@ -816,6 +883,8 @@ pub fn cmd(args: &Args) -> Report {
         rep.count("async_fn_victims_restarted", case.victims.iter().zip(&r.downs).filter(|(v, d)| v.async_fn && d.iter().any(|(_, rt)| rt.is_some())).count() as u64);
         rep.count("victims_with_spawn_local_tasks_shut_down", case.victims.iter().zip(&r.downs).filter(|(v, d)| v.local_tasks && !d.is_empty()).count() as u64);
         rep.count("data_messages_due_while_down", dropped_data as u64);
+        rep.count("events_seen_by_victim_processing_stacks", o.log.iter().filter(|e| e.kind == Kind::PluginEvent).count() as u64);
+        rep.count("victims_spawning_a_sleeping_task_in_reset", case.victims.iter().zip(&r.downs).filter(|(v, d)| v.reset_task_ns > 0 && !d.is_empty()).count() as u64);
         rep.count("transit_messages_due_while_down", dropped_transit as u64);
         if coincide {
             rep.count("cases_with_deliberate_coincidences", 1);
